@@ -1,7 +1,8 @@
 (* C08 — a query's answer does not depend on what else was grounded.
-   Semantic side.  Only statements; proofs in Sem/RelProofs.v. *)
+   Semantic side.  Only statements; proofs in Sem/RelProofs.v and C08/ProofsRelevant.v. *)
 From Coq Require Import NArith QArith List Bool Permutation.
-From PL.Sem Require Import Program Sem SemBasics PermProofs PermFO RelProofs.
+From PL.Sem Require Import Program Sem SemFast SemBasics PermProofs PermFO RelProofs.
+From PL.C08 Require Import ProofsRelevant.
 Import ListNotations.
 
 (* The value of a query on a ground program does not mention the other queries (roots) at all. *)
@@ -31,17 +32,114 @@ Theorem C08_irrelevant_choices_marginalise_partial :
 Proof. intros kr F F' H cs. apply (wsum_restrict gatom kr F F' H cs [] []). reflexivity. Qed.
 Print Assumptions C08_irrelevant_choices_marginalise_partial.
 
-(* FULL STATEMENT, not proved (hence `_partial` above):
-     C08_relevant : restrict cs goals = Some cs' -> In q goals -> (forall e, In e ev -> In (fst e) goals) ->
-                    neg_cycle_free cs = Some true ->
-                    prob_gen cs' ev q = prob_gen cs ev q.
-   Missing lemma (logical half): locality of the well-founded model — for kr r := mem (fst r) C with C the
-   dependency cone, `filter kr acc = filter kr acc'` implies that wfm acc U and wfm acc' U' agree on the atoms
-   of C (so the four indicators of prob_gen satisfy the hypothesis of the theorem above).  The oracle's use of
-   `restrict`/`prune` is therefore additionally tied to Sem.answers by the spec-vs-fast self-check of the C01 run.
-   Also not proved: C08_roots_monotone / C08_order_free on the pipeline model ground_m (DESIGN C01 stretch). *)
+(* Logical half: LOCALITY OF THE WELL-FOUNDED MODEL.  S = a set of atoms (boolean predicate) closed under
+   dependency: every body atom, positive or negative, of a rule whose head is in S is in S (`closed_rule`).
+   Two normal programs (worlds) with the same rules with head in S, over universes that agree on S, have
+   alternating-fixpoint models that agree on S — both components: true atoms T and true-or-undefined atoms Uk.
+   In particular (R' := the rules of R with head in S) the model of R restricted to S is the model of the
+   sub-program of the rules with head in S. *)
+Theorem C08_wfm_local : forall (inS : gatom -> bool) (R R' : list (nrule gatom)) (U U' : list gatom),
+  filter (kr gatom inS) R = filter (kr gatom inS) R' ->
+  Forall (closed_rule gatom inS) R -> Forall (closed_rule gatom inS) R' ->
+  (forall a, inS a = true -> (In a U <-> In a U')) ->
+  forall T Uk T' Uk',
+  wfm gatom gatom_eqb R U = Some (T, Uk) -> wfm gatom gatom_eqb R' U' = Some (T', Uk') ->
+  forall a, inS a = true -> (In a T <-> In a T') /\ (In a Uk <-> In a Uk').
+Proof. exact (wfm_local gatom gatom_eqb gatom_eqb_spec). Qed.
+Print Assumptions C08_wfm_local.
+
+Corollary C08_wfm_subprogram : forall (inS : gatom -> bool) (R : list (nrule gatom)) (U : list gatom),
+  Forall (closed_rule gatom inS) R ->
+  forall T Uk T' Uk',
+  wfm gatom gatom_eqb R U = Some (T, Uk) -> wfm gatom gatom_eqb (filter (kr gatom inS) R) U = Some (T', Uk') ->
+  forall a, inS a = true -> (In a T <-> In a T') /\ (In a Uk <-> In a Uk').
+Proof. exact (wfm_subprogram gatom gatom_eqb gatom_eqb_spec). Qed.
+Print Assumptions C08_wfm_subprogram.
+
+(* The cone computation never runs out of fuel: `restrict` is total. *)
+Theorem C08_restrict_total : forall cs goals, restrict gatom gatom_eqb cs goals <> None.
+Proof. exact (restrict_total gatom gatom_eqb gatom_eqb_spec). Qed.
+Print Assumptions C08_restrict_total.
+
+(* FULL STATEMENT.  cs' = the clauses of cs with a head in the dependency cone of the goals (closure of
+   query + evidence atoms under "body atom of a clause with that head", positive or negative: what ProbLog
+   grounds).  Evidence atoms must be goals: evidence outside the cone conditions the distribution.
+   `neg_cycle_free cs`: without it a negative loop OUTSIDE the cone makes the whole program NotTwoValued
+   while the restricted program answers; see C08_masses_relevant for what holds without it. *)
+Theorem C08_relevant : forall cs goals cs' ev q,
+  restrict gatom gatom_eqb cs goals = Some cs' -> In q goals -> (forall e, In e ev -> In (fst e) goals) ->
+  neg_cycle_free gatom gatom_eqb cs = Some true ->
+  prob_gen gatom gatom_eqb cs' ev q = prob_gen gatom gatom_eqb cs ev q.
+Proof. exact (prob_gen_restrict gatom gatom_eqb gatom_eqb_spec). Qed.
+Print Assumptions C08_relevant.
+
+(* Without any hypothesis on negation: the unnormalised masses (P(e), P(q /\ e), any check that only reads
+   atoms of the cone C) and the mass of the worlds in which an atom of the cone is undefined (the sum Sem.classify
+   uses) are those of the restricted program.  Choices of AD instances outside the cone marginalise to 1. *)
+Theorem C08_masses_relevant : forall cs goals C cs',
+  cone gatom gatom_eqb (edges gatom cs) goals = Some C -> restrict gatom gatom_eqb cs goals = Some cs' ->
+  (forall chk, (forall T T', agree gatom (fun a => mem gatom gatom_eqb a C) T T' -> chk T = chk T') ->
+     wsum gatom (ind_true gatom gatom_eqb (universe gatom gatom_eqb cs) chk) cs []
+     == wsum gatom (ind_true gatom gatom_eqb (universe gatom gatom_eqb cs') chk) cs' []) /\
+  wsum gatom (ind_undef gatom gatom_eqb (universe gatom gatom_eqb cs) (fun a => mem gatom gatom_eqb a C)) cs []
+  == wsum gatom (ind_undef gatom gatom_eqb (universe gatom gatom_eqb cs') (fun a => mem gatom gatom_eqb a C)) cs' [].
+Proof. exact (masses_restrict gatom gatom_eqb gatom_eqb_spec). Qed.
+Print Assumptions C08_masses_relevant.
+
+(* Grounding more roots first: any two goal sets containing the query and the evidence atoms give relevant
+   ground programs with the same value for the query. *)
+Theorem C08_roots_monotone : forall cs goals goals' cs1 cs2 ev q,
+  restrict gatom gatom_eqb cs goals = Some cs1 -> restrict gatom gatom_eqb cs goals' = Some cs2 ->
+  In q goals -> In q goals' ->
+  (forall e, In e ev -> In (fst e) goals) -> (forall e, In e ev -> In (fst e) goals') ->
+  neg_cycle_free gatom gatom_eqb cs = Some true ->
+  prob_gen gatom gatom_eqb cs1 ev q = prob_gen gatom gatom_eqb cs2 ev q.
+Proof. exact (prob_gen_restrict_roots gatom gatom_eqb gatom_eqb_spec). Qed.
+Print Assumptions C08_roots_monotone.
+
+(* First-order programs: the relevant ground program of P (cone of ALL queries and evidence of P) gives every
+   query of P its value in P ... *)
+Theorem C08_relevant_program : forall P cs' q,
+  restrict gatom gatom_eqb (g_clauses (ground P)) (goals (ground P)) = Some cs' ->
+  In q (g_queries (ground P)) ->
+  neg_cycle_free gatom gatom_eqb (g_clauses (ground P)) = Some true ->
+  gprob (mkG cs' (g_queries (ground P)) (g_evid (ground P))) q = prob P q.
+Proof. exact relevant_program. Qed.
+Print Assumptions C08_relevant_program.
+
+(* ... and stating (grounding) one more query `a` first does not change the value the relevant ground program
+   gives to the other queries: it is still their value in the program without `a`. *)
+Theorem C08_more_roots_relevant : forall P a cs' q,
+  incl (consts_atom a) (domain P) ->
+  restrict gatom gatom_eqb (g_clauses (ground (P ++ [SQuery a]))) (goals (ground (P ++ [SQuery a]))) = Some cs' ->
+  In q (g_queries (ground (P ++ [SQuery a]))) ->
+  neg_cycle_free gatom gatom_eqb (g_clauses (ground (P ++ [SQuery a]))) = Some true ->
+  gprob (mkG cs' (g_queries (ground (P ++ [SQuery a]))) (g_evid (ground (P ++ [SQuery a])))) q = prob P q.
+Proof. exact more_roots_relevant. Qed.
+Print Assumptions C08_more_roots_relevant.
+
+(* Still not stated: C08_roots_monotone / C08_order_free on the pipeline model ground_m (DESIGN C01 stretch:
+   needs a model of the engine's grounding).  C08_relevant under the weaker hypothesis "prob_gen cs ev q is not
+   NotTwoValued" instead of neg_cycle_free (needs non-negative weights and: an atom undefined in the restricted
+   world has an undefined atom of the cone below it). *)
 
 Example C08_example :
   gprob (mkG [AD [(3#10, (1%N, []))] []; Rule (2%N, []) [Pos (1%N, [])]; AD [(1#2, (5%N, []))] []] [(2%N, [])] []) (2%N, [])
   = Ok (3#10).
 Proof. vm_compute. reflexivity. Qed.
+
+(* non-vacuity of C08_relevant: two clauses outside the cone (one AD instance, one rule with a negative literal)
+   are dropped, the restricted program has 3 of 5 clauses and the same conditional probability *)
+Definition ex_cs : list (clause gatom) :=
+  [AD [(3#10, (1%N, []))] []; Rule (2%N, []) [Pos (1%N, []); Neg (4%N, [])]; AD [(1#2, (4%N, []))] [];
+   AD [(1#2, (5%N, [])); (1#4, (6%N, []))] []; Rule (7%N, []) [Neg (5%N, []); Pos (2%N, [])]].
+Definition ex_cs' : list (clause gatom) :=
+  [AD [(3#10, (1%N, []))] []; Rule (2%N, []) [Pos (1%N, []); Neg (4%N, [])]; AD [(1#2, (4%N, []))] []].
+Example C08_relevant_example_restrict : restrict gatom gatom_eqb ex_cs [(2%N, []); (4%N, [])] = Some ex_cs'.
+Proof. vm_compute. reflexivity. Qed.
+Example C08_relevant_example_ncf : neg_cycle_free gatom gatom_eqb ex_cs = Some true.
+Proof. vm_compute. reflexivity. Qed.
+Example C08_relevant_example_value :
+  prob_gen gatom gatom_eqb ex_cs' [((4%N, []), false)] (2%N, []) = Ok (3#10) /\
+  prob_gen gatom gatom_eqb ex_cs [((4%N, []), false)] (2%N, []) = Ok (3#10).
+Proof. split; vm_compute; reflexivity. Qed.
